@@ -26,7 +26,7 @@ def cases(rng, tier, Case):
         docs.append(mdgen.clean_utf8(mdgen.gen_doc(rng)))
     for d in docs:
         d = d.replace("\r\n", "\n").replace("\r", "\n")
-        cfg = rng.choice(["CsW", "CsW", mdgen.gen_cfg(rng, forbid="S")])
+        cfg = rng.choice(["CsW", "CsW", "CsWS", mdgen.gen_cfg(rng, forbid="S"), mdgen.gen_cfg(rng)])
         g = hx(d) + cfg
         res.append(Case("parse %s 100 R %s" % (cfg, hx(d)), "lf", {"g": g, "role": "base", "src": hx(d)}))
         res.append(Case("parse %s 100 R %s" % (cfg, hx(d.replace("\n", "\r\n"))), "crlf", {"g": g, "role": "crlf", "src": hx(d)}))
